@@ -100,6 +100,11 @@ def data_programs(tier):
         ("data:empty-last-line", "10 READ A , B , C , D\n20 DATA 7 , 9\n30 DATA , 5"),
         ("data:empty-overwrite", "10 A = 7 : READ A , B\n20 DATA , 5"),
     ]
+    # unquoted items are data up to the next comma / colon / line end: every other character belongs to the item
+    for nm, item in (("apostrophe", "IT'S"), ("apostrophe-first", "'TIS"), ("apostrophe-last", "DOGS'"), ("question", "WHO?"), ("semicolon", "A;B"), ("parens", "F(1)"),
+                     ("operators", "A+B=C"), ("rem-word", "REMARK"), ("keyword", "PRINT X"), ("hash-bang", "#1!"), ("blank-inside", "NEW  YORK"), ("digits-then-text", "12 MONKEYS")):
+        progs.append((f"data:unquoted-{nm}", f"10 READ S1$ , S2$ , N1\n20 DATA {item} , {item} , 7"))
+        progs.append((f"data:unquoted-{nm}-last", f"10 READ N1 , S1$\n20 DATA 7 , {item}\n30 Z = 1"))
     return progs
 
 
@@ -384,6 +389,7 @@ def run(tier):
     from vf.props import contracts
 
     contracts.check_str(cctx, lib)
+    contracts.check_val(cctx, lib)
     ctx.bounds["contracts_discharged"] = {"procedures": ["ecb_instr", "ecb_string", "ecb_read_filter", "ecb_str (result ends with the last digit)"], "string_length_max": K, "string_count_max": 4}
     ctx.extra["program_status"] = statuses
     dim_bounds(ctx)
